@@ -973,6 +973,15 @@ func (d *Pegnetd) ApplyTransactionBlock(sqlTx *sql.Tx, eblock *factom.EBlock) er
 		} else if isReplay {
 			continue
 		}
+		// A copy of an entry that was rejected, or that is still in holding, is a
+		// replay too. Recording it again would violate the history tables' keys
+		// and fail the block on every attempt.
+		isRecorded, err := d.Pegnet.IsRecordedTransaction(sqlTx, txBatch.Entry.Hash)
+		if err != nil {
+			return err
+		} else if isRecorded {
+			continue
+		}
 		// At this point, we know that the transaction batch is valid and able to be executed.
 
 		if err = d.Pegnet.InsertTransactionHistoryTxBatch(sqlTx, blockorder, txBatch, eblock.Height); err != nil {
